@@ -9,6 +9,8 @@ CONSTANTS
   HandlerSeqs <- R_HSeqs
   UpProgs <- R_UpProgs
   CRProg <- R_CR
+  Forms = {"fresh"}
+  Colls = {}
   QuitOn = FALSE
   QuitDeferred = FALSE
   DefCap = 1
